@@ -53,12 +53,12 @@ def tagOk (t : Tag) : Bool :=
   noNul t.key && noNul t.value && decide (t.key.length ≤ 1024) && decide (t.value.length ≤ 1024)
 
 /-- version 31 bits (OSMObject bit field), 32-bit timestamp / changeset / uid; strings without NUL, within
-    the library's limits; no version ⇒ no timestamp ⇒ no changeset/user; uid 0 ⇒ no user name (the
+    the library's limits (1024 bytes, also for the user name); no version ⇒ no timestamp ⇒ no changeset/user; uid 0 ⇒ no user name (the
     anonymous user); deleted objects carry no tags -/
 def metaOk (m : Meta) : Bool :=
   inI64 m.id && decide (m.version < 2147483648) && decide (m.timestamp < 4294967296) &&
   decide (m.changeset < 4294967296) && decide (m.uid < 4294967296) &&
-  noNul m.user && decide (m.user.length < 65535) && m.tags.all tagOk &&
+  noNul m.user && decide (m.user.length ≤ 1024) && m.tags.all tagOk &&
   (m.version != 0 || m.timestamp == 0) &&
   (m.timestamp != 0 || (m.changeset == 0 && m.uid == 0 && m.user.isEmpty)) &&
   (m.uid != 0 || m.user.isEmpty) &&
@@ -75,8 +75,14 @@ def objectOk : Object → Bool
 
 def locOk (l : Location) : Bool := inI32 l.x && inI32 l.y
 
+/-- a bounding box the library accepts (precondition of `osmium::Box`): both corners defined, or
+    bottom-left ≤ top-right in both coordinates -/
+def boxOk (b : Location × Location) : Bool :=
+  locOk b.1 && locOk b.2 &&
+  ((O5m.Location.defined b.1 && O5m.Location.defined b.2) || (decide (b.1.x ≤ b.2.x) && decide (b.1.y ≤ b.2.y)))
+
 def domainOk (f : File) : Bool :=
-  f.objects.all objectOk && decide (f.timestamp < 4294967296) && f.boxes.all (fun b => locOk b.1 && locOk b.2)
+  f.objects.all objectOk && decide (f.timestamp < 4294967296) && f.boxes.all boxOk
 
 /-- the producer's free choices -/
 structure Choices where
@@ -283,5 +289,12 @@ def encodeToks (ch : Choices) (f : File) : List Tok :=
   (if ch.trailer == 0 then [Tok.raw [0xfe]] else [])
 
 def encode (ch : Choices) (f : File) : Bytes := flattenToks (encodeToks ch f)
+
+def tokPayloadLen : Tok → Nat
+  | .raw _ => 0
+  | .ds _ fs => (payload fs).length
+
+/-- every dataset of the encoded file is shorter than 2^64 bytes (its length fits the varint) -/
+def sizeOk (ch : Choices) (f : File) : Bool := (encodeToks ch f).all fun t => decide (tokPayloadLen t < 2 ^ 64)
 
 end Osmium.O5mSpec
